@@ -89,7 +89,13 @@ class Reader:
         self.prepare_lexing(f)
         try:
             module = self.parse_module()
-        except (KeyError, TypeError, ValueError, NotImplementedError) as ex:
+        except (
+            KeyError,
+            TypeError,
+            ValueError,
+            NotImplementedError,
+            AssertionError,
+        ) as ex:
             # The text is lexically fine, but does not describe valid
             # IR-code (unknown type or value, operand type mismatch, ..)
             self.error(f"Invalid IR-code: {type(ex).__name__} {ex}")
@@ -272,6 +278,9 @@ class Reader:
                 subroutine.entry = block
 
         self.consume("}")
+        for block_name, block in self.scopes[-1].block_map.items():
+            if block not in subroutine.blocks:
+                self.error(f"Undefined block: {block_name}")
         self.leave_scope()
 
         return subroutine
